@@ -1536,7 +1536,7 @@ Proof. intros A a b c H y Hy. apply H. apply in_app_iff. auto. Qed.
 
 Lemma stmt_u3 : forall x, PUS x.
 Proof.
-  induction x using stmt_ind'; try (intros Hs; discriminate); try (intros Hs Hn; discriminate); try rename e into e0;
+  induction x using stmt_ind'; try (intros Hs; discriminate); try (intros Hs Hn; discriminate); try rename e into e0; try rename ex into exs;
     intros Hs Hn exp l L' acc accs ex s e tr Lf Mdyn Mb HI Hin HBS e' rds Esem; unfold NS in *.
   - (* SExpr *)
     cbn in Esem. injection Esem as <- <-. cbn [s2_stmt vstmt bsrcs map] in *.
@@ -1656,6 +1656,10 @@ Proof.
     apply (block_u3 f H2 Hd Nd _ _ _ _ _ _ _ _ _ _ _ _ I2 (incl_app_r _ _ _ _ (incl_app_r _ _ _ _ Hin))).
     intros E. exact (incl_app_r _ _ _ _ (incl_app_r _ _ _ _ (HBS E))). exact E3.
   - (* SPass *)
+    cbn in Esem. injection Esem as <- <-. cbn [vstmt bsrcs map].
+    destruct (PostS3_refl _ _ _ _ _ _ _ _ _ _ _ _ (Inv3_with_ln _ _ _ _ _ _ _ _ _ _ _ _ ln HI)) as (exp1 & X1 & I1 & N1).
+    exists exp1. split. exact X1. split. exact I1. exact N1.
+  - (* SDoc *)
     cbn in Esem. injection Esem as <- <-. cbn [vstmt bsrcs map].
     destruct (PostS3_refl _ _ _ _ _ _ _ _ _ _ _ _ (Inv3_with_ln _ _ _ _ _ _ _ _ _ _ _ _ ln HI)) as (exp1 & X1 & I1 & N1).
     exists exp1. split. exact X1. split. exact I1. exact N1.
@@ -2619,7 +2623,7 @@ Qed.
 
 Lemma stmt_u3_s3 : forall x, PUS_s3 x.
 Proof.
-  induction x using stmt_ind'; try (intros Hs; discriminate); try (intros Hs Hn; discriminate); try rename e into e0;
+  induction x using stmt_ind'; try (intros Hs; discriminate); try (intros Hs Hn; discriminate); try rename e into e0; try rename ex into exs;
     intros Hs Hn exp l L' acc accs ex s e tr Lf Mdyn Mb HI Hin HBS e' rds Esem; unfold NS in *.
   - (* SExpr *)
     cbn in Esem. injection Esem as <- <-. cbn [s3_stmt vstmt bsrcs map] in *.
@@ -2739,6 +2743,10 @@ Proof.
     apply (block_u3_s3 f H2 Hd Nd _ _ _ _ _ _ _ _ _ _ _ _ I2 (incl_app_r _ _ _ _ (incl_app_r _ _ _ _ Hin))).
     intros E. exact (incl_app_r _ _ _ _ (incl_app_r _ _ _ _ (HBS E))). exact E3.
   - (* SPass *)
+    cbn in Esem. injection Esem as <- <-. cbn [vstmt bsrcs map].
+    destruct (PostS3_refl _ _ _ _ _ _ _ _ _ _ _ _ (Inv3_with_ln _ _ _ _ _ _ _ _ _ _ _ _ ln HI)) as (exp1 & X1 & I1 & N1).
+    exists exp1. split. exact X1. split. exact I1. exact N1.
+  - (* SDoc *)
     cbn in Esem. injection Esem as <- <-. cbn [vstmt bsrcs map].
     destruct (PostS3_refl _ _ _ _ _ _ _ _ _ _ _ _ (Inv3_with_ln _ _ _ _ _ _ _ _ _ _ _ _ ln HI)) as (exp1 & X1 & I1 & N1).
     exists exp1. split. exact X1. split. exact I1. exact N1.
